@@ -362,7 +362,7 @@ structure Pair (α : Type) where
   baseVal : α
   mark : Nat
   markVal : α
-  deriving Repr
+  deriving Repr, DecidableEq
 
 def sourcePairs (gs : List (Glyph α)) : List (Pair α) :=
   let P := pruned gs
